@@ -53,7 +53,7 @@ def parseProject (j : Json) : PProject :=
   let types := (jarrD j "types").toList
   let q (t : Json) := if jstrD t "pkg" = "ctl" then jstrD t "name" else jstrD t "pkg" ++ "." ++ jstrD t "name"
   let primAlias (t : Json) := universePrims.contains (jstrD t "base")
-  { controllers := (jarrD j "controllers").toList.map fun c =>
+  { controllers := ((jarrD j "controllers").toList.filter fun c => !jboolD c "unglobbed").map fun c =>
       { name := jstrD c "name", pkg := jstrD c "pkg", file := jstrD c "file", noEmbed := jboolD c "noEmbed",
         annots := (jarrD c "annots").toList.map parseAnnot, free := strList c "free",
         methods := (jarrD c "methods").toList.map fun m =>
@@ -349,15 +349,16 @@ def checkC18 (p : PProject) (impl : Json) : PropOut := Id.run do
 def accepted (impl : Json) : Bool :=
   jstrD impl "configErr" = "" && jstrD impl "setupErr" = "" && jstrD impl "graphErr" = "" && jstrD impl "validateErr" = "" && jstrD impl "runErr" = ""
 
-def checkC13 (_p : PProject) (impl : Json) : PropOut := Id.run do
+def checkC13 (p : PProject) (impl : Json) : PropOut := Id.run do
   let det := (impl.getObjVal? "determinism").toOption.getD Json.null
   if !accepted impl || det == Json.null then
     return { model := Json.str "not-accepted", implView := Json.str "not-accepted", nontrivial := false, notes := ["d:not-accepted"] }
   let n (k : String) := (jnat det k).toOption.getD 0
   let mut fails : List String := []
   if n "routesDistinct" ≠ 1 then fails := fails ++ [s!"routes-file-not-reproducible:{n "routesDistinct"}-distinct-contents-in-{n "runs"}-runs"]
-  if n "spec30Distinct" ≠ 1 then fails := fails ++ [s!"spec-3.0-not-reproducible:{n "spec30Distinct"}"]
-  if n "spec31Distinct" > 1 then fails := fails ++ [s!"spec-3.1-not-reproducible:{n "spec31Distinct"}"]
+  let fid := if typeNameCollision p then "C07-F4:" else ""
+  if n "spec30Distinct" ≠ 1 then fails := fails ++ [fid ++ s!"spec-3.0-not-reproducible:{n "spec30Distinct"}"]
+  if n "spec31Distinct" > 1 then fails := fails ++ [fid ++ s!"spec-3.1-not-reproducible:{n "spec31Distinct"}"]
   if n "specDistinctAcrossEngines" ≠ 1 then fails := fails ++ [s!"spec-depends-on-engine:{n "specDistinctAcrossEngines"}"]
   if !(jboolD det "dateOnlyDifference") then fails := fails ++ ["routes-differ-beyond-the-date-comment"]
   let view (j : Json) := Json.mkObj [("routesDistinct", (jnat j "routesDistinct").toOption.getD 0), ("spec30Distinct", (jnat j "spec30Distinct").toOption.getD 0),
@@ -365,14 +366,21 @@ def checkC13 (_p : PProject) (impl : Json) : PropOut := Id.run do
   let want := Json.mkObj [("routesDistinct", (1 : Nat)), ("spec30Distinct", (1 : Nat)), ("specDistinctAcrossEngines", (1 : Nat)), ("dateOnlyDifference", true)]
   return { model := want, implView := view det, implFails := fails, nontrivial := true, notes := [s!"d:runs={n "runs"}"] }
 
-def checkC19 (_p : PProject) (impl : Json) : PropOut := Id.run do
+/-- two declarations with one bare name: the model lists (sorted by name only) and the component map keep
+    whichever comes last, which varies from run to run — a consequence of C07-F4 -/
+def typeNameCollision (p : PProject) : Bool :=
+  let names := p.types.map (jstrD · "name")
+  names.eraseDups.length < names.length
+
+def checkC19 (p : PProject) (impl : Json) : PropOut := Id.run do
   let reps := strList impl "repeats"
   if !accepted impl || reps.isEmpty then
     return { model := Json.str "not-accepted", implView := Json.str "not-accepted", nontrivial := false, notes := ["d:not-accepted"] }
   let counts := (jarrD impl "graphCounts").toList.filterMap (·.getNat?.toOption)
   let mut fails : List String := []
-  if !(reps.all (· = "same")) then fails := fails ++ [s!"repeated-analysis-differs:{reps}"]
-  if jstrD impl "fresh" ≠ "same" then fails := fails ++ [s!"fresh-session-differs:{jstrD impl "fresh"}"]
+  let fid := if typeNameCollision p then "C07-F4:" else ""
+  if !(reps.all (· = "same")) then fails := fails ++ [fid ++ s!"repeated-analysis-differs:{reps}"]
+  if jstrD impl "fresh" ≠ "same" then fails := fails ++ [fid ++ s!"fresh-session-differs:{jstrD impl "fresh"}"]
   if !(counts.all (· = counts.headD 0)) then fails := fails ++ [s!"graph-grows:{counts}"]
   let view := Json.mkObj [("repeats", Json.arr (reps.map Json.str).toArray), ("fresh", jstrD impl "fresh"), ("stable", counts.all (· = counts.headD 0))]
   let want := Json.mkObj [("repeats", Json.arr (reps.map fun _ => Json.str "same").toArray), ("fresh", "same"), ("stable", true)]
